@@ -684,6 +684,10 @@ def corpus(ctx):
     for fact in ("iso", "bd"):
         cfgd = sm.Config(fact=fact, solver="dynamic", strategy="filter", lin="ts0", q=2, base_scale=(1.0 if fact == "iso" else [1.0, 2.0]))
         equivariance_fixed(ctx, cfgd, 2, lin, [np.array([1.0, -0.5])], 0.0, [0.125, 0.25, 0.125, 0.25], [1e6, 2.0**20])
+    # dynamic calibration, many checkpoints inside single accepted steps: every checkpoint reports the local scale of
+    # the step that passed it, also the second and later checkpoints of that step (seeded change C04-s4)
+    cfgd = sm.Config(fact="iso", solver="dynamic", strategy="filter", lin="ts0", q=2)
+    value_adaptive(ctx, cfgd, 2, lin, [np.array([1.0, -0.5])], 0.0, np.linspace(0.0, 1.0, 17), 1e-2, clip=False)
     # adaptive MLE runs with checkpoints strictly inside steps (interpolation must use unit-scale transitions; seeded
     # change C04-s1 was only seen by C03/C05): filter and fixed-point smoother, no clipping
     for fact, strat in (("iso", "filter"), ("dense", "fixedpoint")) if ctx.quick else (("iso", "filter"), ("dense", "fixedpoint"), ("bd", "fixedpoint"), ("dense", "filter")):
